@@ -12,7 +12,7 @@ ID = 'C20'
 RULE = ('region of 4 cells (2x2) x 2 magnitude bins; gridded forecasts = 4 rate arrays (distinct rates, one with a zero bin); '
         'observed catalogs = 5 multisets of 2..4 events; catalog forecasts = 4 sequences of J<=3 synthetic catalogs; for every '
         'input ALL permutations of the observed events (N<=4: up to 24), ALL permutations of the synthetic catalogs (J<=3) and '
-        'ALL 24 permutations of the region cells together with the forecast rows (Cartesian regions built in memory, a quadtree region with observed events on shared tile edges, and forecasts loaded from generated files whose cell blocks are written in every order) are run through every public test of '
+        'ALL 24 permutations of the region cells together with the forecast rows (Cartesian regions built in memory, a quadtree region with observed events on shared tile edges, and forecasts loaded from generated files whose cell blocks are written in every order) are run through every public test (also with ONE catalog object re-bound to each cell order in turn, and with the two forecasts of a comparison storing the same cells in different orders) of '
         'poisson_evaluations (7), binomial_evaluations (4), brier_evaluations (1) and catalog_evaluations (6). A variant is '
         'non-trivial iff the permutation is not the identity; variants are distinct by construction.')
 ASSUMPTIONS = ['observed statistics and analytic quantiles must agree to rounding (rtol 1e-12); simulation-free test distributions '
@@ -234,6 +234,48 @@ def run_case(case):
                     ok = ok and close(got['q'], want['q']) and close(got['dist'], want['dist'])
                 if not ok:
                     report(site, 'statistic-changes-with-cell-order', 'cells', f'cell perm {perm}: stat {got["stat"]} q {got["q"]} vs stat {want["stat"]} q {want["q"]}', dict(perm=list(perm), what='cells'))
+        if backend == 'cartesian':
+            # (d) ONE catalog object across all cell orders: after each evaluation its region is replaced by the same cells in
+            #     another order (the evaluations themselves re-bind observed_catalog.region like this)
+            shared = fixtures.catalog(events_(obs_pairs), region=region_(ident))
+            for site, fn, kind_ in tests:
+                call(fn, gfc_(rf, ident, shared.region, 'A'), gfc_(rg, ident, shared.region, 'B'), shared)
+            for perm in itertools.permutations(range(4)):
+                reg = region_(perm)
+                shared.region = reg
+                states += 1
+                nontriv += (perm != ident)
+                for site, fn, kind_ in tests:
+                    got = call(fn, gfc_(rf, perm, reg, 'A'), gfc_(rg, perm, reg, 'B'), shared)
+                    evals += 1
+                    want = base[site]
+                    if 'exc' in (got or {}) or 'exc' in (want or {}):
+                        if got != want:
+                            report(site, 'exception-after-rebinding-the-catalog-region', 'cells,shared-catalog', f'{got} vs {want} perm={perm}', dict(perm=list(perm), what='shared'))
+                        continue
+                    ok = close(got['stat'], want['stat']) and (kind_ != 'analytic' or (close(got['q'], want['q']) and close(got['dist'], want['dist'])))
+                    if not ok:
+                        report(site, 'statistic-changes-when-the-same-catalog-is-rebound-to-reordered-cells', 'cells,shared-catalog',
+                               f'cell perm {perm}: stat {got["stat"]} q {got["q"]} vs stat {want["stat"]} q {want["q"]}', dict(perm=list(perm), what='shared'))
+            # (e) the two forecasts of a comparison store the SAME cells in DIFFERENT orders (each consistent with its own region)
+            pair_tests = [t for t in tests if t[0].rsplit('.', 1)[1] in ('paired_t_test', 'w_test', 'binary_paired_t_test')]
+            for perm in itertools.permutations(range(4)):
+                for which in ('benchmark-reordered', 'forecast-reordered'):
+                    pa, pb = (ident, perm) if which == 'benchmark-reordered' else (perm, ident)
+                    ra_, rb_ = region_(pa), region_(pb)
+                    states += 1
+                    nontriv += (perm != ident)
+                    for site, fn, kind_ in pair_tests:
+                        got = call(fn, gfc_(rf, pa, ra_, 'A'), gfc_(rg, pb, rb_, 'B'), fixtures.catalog(events_(obs_pairs), region=ra_))
+                        evals += 1
+                        want = base[site]
+                        if 'exc' in (got or {}) or 'exc' in (want or {}):
+                            if got != want:
+                                report(site, 'exception-when-the-two-forecasts-store-cells-in-different-orders', 'cells,' + which, f'{got} vs {want} perm={perm}', dict(perm=list(perm), what=which))
+                            continue
+                        if not (close(got['stat'], want['stat']) and close(got['q'], want['q']) and close(got['dist'], want['dist'])):
+                            report(site, 'statistic-changes-when-the-two-forecasts-store-cells-in-different-orders', 'cells,' + which,
+                                   f'cell perm {perm} ({which}): stat {got["stat"]} q {got["q"]} vs stat {want["stat"]} q {want["q"]}', dict(perm=list(perm), what=which))
     else:
         from csep.core.forecasts import CatalogForecast
         cf = CFS[case['c']]
